@@ -57,6 +57,7 @@ NOREF_DEMANDS_FOUND = True
 KEY_F11 = "second-nonref-allele-in-window"
 KEY_F12 = "paired-end-opposite-orientation-mate-dropped"
 KEY_F13 = "noref-multibase-allele-not-found"
+KEY_CONFLICT = "noref-variant-discarded-as-conflicting"
 # development aid: C06_ASIS=F12,F13,F14,F15 compares with the model of the code as it was before the fixes
 ASIS = [x for x in os.environ.get("C06_ASIS", "").split(",") if x]
 
@@ -76,7 +77,7 @@ def impl_iter(positions, j, start, cigar):
     try:
         for y in _iterate_cigar(vs, j, SimpleNamespace(reference_start=start), cigar):
             out.append(list(y))
-    except (AssertionError, ValueError, IndexError) as e:
+    except Exception as e:
         err = _exc(e)
     return {"yields": out, "err": err}
 
@@ -152,7 +153,7 @@ def impl_prefix(cigar, k):
     from whatshap.variants import ReadSetReader
     try:
         return list(ReadSetReader.cigar_prefix_length(iter(cigar), k))
-    except AssertionError as e:
+    except Exception as e:
         return {"err": _exc(e)}
 
 
@@ -161,8 +162,8 @@ def impl_split(cigar, i, consumed):
     out = {}
     for side, f in (("left", ReadSetReader.split_cigar_left), ("right", ReadSetReader.split_cigar_right)):
         try:
-            out[side] = [list(x) for x in f(cigar, i, consumed)]
-        except (AssertionError, IndexError) as e:
+            out[side] = [list(x) for x in f(cigar, i, consumed) if x[1] > 0]   # zero-length pieces are not observable
+        except Exception as e:
             out[side] = {"err": _exc(e)}
     return out
 
@@ -210,6 +211,7 @@ def check_prefix_split(ctx, cases):
             ctx.disagree("c06.prefix", c, ip, mp)
         if c["k"] > 0 and ip != py_prefix_spec(cig, c["k"]):
             ctx.disagree("c06.prefix-vs-base-count", c, ip, py_prefix_spec(cig, c["k"]))
+        ms = {k: ([x for x in v if x[1] > 0] if isinstance(v, list) else v) for k, v in ms.items()}
         if isp != ms:
             ctx.disagree("c06.split", c, isp, ms)
         if isinstance(ip, list) and ip[1] > 0:
@@ -245,7 +247,7 @@ def impl_realign(c):
         if a is not None and q != 30:
             return {"err": f"quality {q}"}
         return a
-    except (AssertionError, IndexError, ValueError) as e:
+    except Exception as e:
         return {"err": _exc(e)}
 
 
@@ -287,7 +289,10 @@ def gen_realign_case(rng):
     if impl["yields"] and rng.random() < 0.9:
         _, i, consumed, qpos = impl["yields"][0]
     else:
-        i = rng.randrange(0, max(1, len(cigar))); consumed = rng.randrange(0, 3); qpos = rng.randrange(0, len(query) + 1)
+        # arbitrary but *reachable* split point: the walker only reports consumed < length (0 for an insertion)
+        i = rng.randrange(0, max(1, len(cigar)))
+        ln = cigar[i][1] if i < len(cigar) else 1
+        consumed = rng.randrange(0, max(1, ln)); qpos = rng.randrange(0, len(query) + 1)
     restricted = None
     if rng.random() < 0.1:
         restricted = rng.choice([[0, 0], [1, 1], [0, 1], [1, 2], [2, 2]])
@@ -331,7 +336,7 @@ def impl_noref(c, nvs=None):
     try:
         for t in _detect_alleles(nvs, vp, c["first"], read):
             out.append([int(x) for x in t])
-    except (AssertionError, IndexError, ValueError) as e:
+    except Exception as e:
         err = _exc(e)
     return {"out": out, "err": err}
 
@@ -497,6 +502,11 @@ def run_scenario(ctx, case, label):
             reader = ReadSetReader([bam], reference=None, numeric_sample_ids=NumericSampleIds())
             try:
                 rs = reader.read("chr1", vlist, "S1", refarg)
+            except Exception as e:  # a crash on error-free reads with valid CIGARs: nothing is recorded at all
+                ctx.evaluated()
+                ctx.fail(f"{mode}: ReadSetReader.read raised {_exc(e)} on error-free reads with canonical CIGARs",
+                         {"label": label, "mode": mode, "case": case}, key=f"crash-{_exc(e)}")
+                continue
             finally:
                 reader.close()
             got = {}
@@ -538,7 +548,10 @@ def run_scenario(ctx, case, label):
                 ctx.disagree(f"c06.readset_{mode}", {"label": label, "names": diff[:5], "case": case},
                              {n: got.get(n) for n in diff[:5]}, {n: exp.get(n) for n in diff[:5]})
             # ---- O: ground truth
-            oracle(ctx, case, label, mode, hv, listed, by_name, got, per_aln)
+            valid = None
+            if mode == "noref":
+                valid = set(impl_normalize(vjson)["valid"])
+            oracle(ctx, case, label, mode, hv, listed, by_name, got, per_aln, valid)
     finally:
         shutil.rmtree(d, ignore_errors=True)
 
@@ -558,12 +571,13 @@ def impl_detect(mode, vlist, aln, reference):
             vp.sort(key=lambda x: x.variant_id)
             for t in _detect_alleles(nvs, vp, 0, aln):
                 out.append([int(x) for x in t])
-    except (AssertionError, IndexError, ValueError) as e:
+    except Exception as e:
         err = _exc(e)
     return {"out": out, "err": err}
 
 
-def oracle(ctx, case, label, mode, hv, listed, by_name, got, per_aln):
+def oracle(ctx, case, label, mode, hv, listed, by_name, got, per_aln, valid=None):
+    vidx = {i: n for n, (i, _) in enumerate(listed)}     # index into the VCF variant list
     for name, mates in by_name.items():
         rec = {p: a for p, a, _ in got.get(name, [])}
         for i, v in listed:
@@ -613,6 +627,14 @@ def oracle(ctx, case, label, mode, hv, listed, by_name, got, per_aln):
                                  key="ref-allele-not-found-isolated" + ("-near-refskip" if near_n is not None and near_n < 12 else ""))
                     else:
                         ctx.observe("ref: no allele (tie) for a fully covering read with a second non-REF allele in the window")
+                elif valid is not None and vidx[i] not in valid:
+                    # detect_non_overlapping_variants drops variants that share a (normalised) position with an earlier one
+                    # or lie inside a deletion: by design nothing is ever recorded for them without a reference
+                    if NOREF_DEMANDS_FOUND and (v.kind == "snv" or demanded_noref):
+                        ctx.fail(f"noref: {v.kind} {v!r} is discarded as conflicting with a neighbouring variant (same normalised "
+                                 f"position / inside a deletion): no allele is ever recorded", where(), key=KEY_CONFLICT)
+                    else:
+                        ctx.observe("noref: variant discarded as conflicting (same normalised position / inside a deletion)")
                 elif not NOREF_DEMANDS_FOUND:
                     ctx.observe(f"noref: allele not found for {v.kind} (never wrong; 'found' not demanded: NOREF_DEMANDS_FOUND=False)")
                 else:
@@ -685,7 +707,7 @@ def run(ctx):
         replay_case(ctx, c, "corpus:" + name)
     q = ctx.quick
     s = ctx.scale
-    n_syn = (1500 if q else 12000) * s
+    n_syn = (2500 if q else 20000) * s
     for mk, chk in ((gen_iter_case, check_iter), (gen_prefix_case, check_prefix_split), (gen_realign_case, check_realign),
                     (gen_noref_case, check_noref), (gen_group_case, check_group)):
         cases = [mk(rng) for _ in range(n_syn if mk is not gen_group_case else n_syn // 3)]
@@ -697,10 +719,10 @@ def run(ctx):
         exhaustive_prefix(ctx, 3, 2, (0, 1, 2, 3, 4, 5, 7))
         ctx.extra["exhaustive_note"] = ("walker: all CIGARs of <= 3 ops over all nine operators (<= 4 ops over MIDNS), lengths 1-2, "
                                         "a variant at every reference position; prefix/split: <= 3 ops, every k")
-    n_scn = (14 if q else 120) * s
+    n_scn = (120 if q else 1200) * s
     for k in range(n_scn):
         r = rng.random()
-        stream = "isolated" if r < 0.6 else "close"
+        stream = "isolated" if r < 0.55 else ("close" if r < 0.85 else "twins")
         alphabet = "ACGT" if rng.random() < 0.7 else rng.choice(["AC", "ACG"])
         sc = G.C06Scenario(rng, stream=stream, n_reads=rng.randrange(30, 70), alphabet=alphabet,
                            allow_shiftable=(rng.random() < 0.3), decorations=(rng.random() < 0.85),
@@ -721,7 +743,7 @@ def replay_case(ctx, c, label):
     kind = c.get("stream") or c.get("kind")
     if "label" in c and "case" in c and isinstance(c["case"], dict) and "reads" in c["case"]:
         run_scenario(ctx, minimal(c), label)
-    elif kind in ("isolated", "close"):
+    elif kind in ("isolated", "close", "twins"):
         run_scenario(ctx, c, label)
     elif kind == "group":
         check_group(ctx, [c["case"]])
